@@ -326,7 +326,7 @@ def _role_texts(ctx, f, e):
             return node
 
     try:
-        out.add(ntext(Sub().visit(copy.deepcopy(e))).replace("LOCAL__", "<local>"))
+        out.add(ntext(Sub().visit(acopy(e))).replace("LOCAL__", "<local>"))
     except Exception:
         pass
     return out
@@ -999,11 +999,11 @@ def optkeys(ctx, R):
                 continue
             for nd in walk_local(f.node):
                 if isinstance(nd, ast.Subscript) and isinstance(nd.ctx, ast.Load) and isinstance(nd.slice, ast.Constant) and isinstance(nd.slice.value, str):
-                    base = ntext(nd.value)
+                    base = resolve_local(f, nd.value)  # `opts = self.options; opts["k"]` reads self.options["k"]
                     path = None
                     if base in ("self.options", "options") and (base == "self.options" or modname == "renderer"):
                         path = [nd.slice.value]
-                    elif isinstance(nd.value, ast.Subscript) and ntext(nd.value.value) == "self.options" and isinstance(nd.value.slice, ast.Constant):
+                    elif isinstance(nd.value, ast.Subscript) and resolve_local(f, nd.value.value) == "self.options" and isinstance(nd.value.slice, ast.Constant):
                         path = [nd.value.slice.value, nd.slice.value]
                     if path is None:
                         continue
